@@ -688,3 +688,32 @@ def gen_unit_ast(R, names=('A', 'B', 'C', 'D'), p_annot=0.0):
             outer.nxt = osym()
             chain.append(node())
     return chain
+
+
+def gen_big_mult_ast(R, names=('A', 'B', 'C')):
+    """one multiplier of three or four digits (polymer-sized repeat counts) on a node or on a small
+    anchor+branch unit, nothing else multiplied"""
+    n = R.choice([100, 101, 128, 250, 1000])
+
+    def node():
+        return Node(R.choice(names), '', {})
+
+    def osym(p=0.3):
+        return R.choice(ORDERS) if R.chance(p) else None
+    anchor = node()
+    if R.chance(0.5):
+        anchor.mult = n
+    else:
+        unit = [node() for _ in range(R.randint(1, 2))]
+        for a in unit[:-1]:
+            a.nxt = osym()
+        anchor.branches.append([osym(), unit, min(n, 250), R.choice([None, None, 1, 2])])
+    chain = [anchor]
+    if R.chance(0.5):
+        anchor.nxt = osym()
+        chain.append(node())
+    if R.chance(0.5):
+        pre = node()
+        pre.nxt = osym()
+        chain = [pre] + chain
+    return chain
